@@ -201,5 +201,25 @@ m("c20-trotter-state-qubits-support-only", "C20", "tangelo/toolboxes/unitary_gen
 m("c07-uccgd-params-in-place", "C07", AG + "uccgd.py", "        self.var_params = initial_var_params\n        return initial_var_params",
   "        if isinstance(self.var_params, np.ndarray) and self.var_params.shape == initial_var_params.shape:\n            self.var_params[:] = initial_var_params\n        else:\n            self.var_params = initial_var_params\n        return self.var_params")
 
+# ---- C13 ------------------------------------------------------------------------------------------------------------
+RDMS = "tangelo/toolboxes/molecular_computation/rdms.py"
+MOLF = "tangelo/toolboxes/molecular_computation/molecule.py"
+FCI = "tangelo/algorithms/classical/fci_solver.py"
+CCSD = "tangelo/algorithms/classical/ccsd_solver.py"
+m("c13-revert-pad-copy-restricted", "C13", RDMS, "    twordm = twordm.transpose(1, 0, 3, 2).copy()", "    twordm = twordm.transpose(1, 0, 3, 2)")
+m("c13-pad-frozen-occupation-one", "C13", RDMS, "    onerdm_padded[np.diag_indices(n_occ)] = 2.", "    onerdm_padded[np.diag_indices(n_occ)] = 1.")
+m("c13-pad-exchange-sign", "C13", RDMS, "        twordm_padded[i, i, j, j] += 4\n        twordm_padded[i, j, j, i] -= 2", "        twordm_padded[i, i, j, j] += 4\n        twordm_padded[i, j, j, i] += 2")
+m("c13-vqe-2rdm-index-order", "C13", VQE, "                rdm2_spin[iele, lele, jele, kele] += opt_energy2", "                rdm2_spin[iele, jele, kele, lele] += opt_energy2")
+m("c13-vqe-spin-sum-overwrites", "C13", VQE, "                rdm1_np[i//2, j//2] += rdm1_spin[i, j]", "                rdm1_np[i//2, j//2] = rdm1_spin[i, j]")
+m("c13-vqe-reuses-saved-frequencies", "C13", VQE, "            qb_freq_dict, qb_expect_dict = dict(), dict()\n\n        # Build state preparation circuit. If noiseless, simulate and save the statevector\n        prep_circuit = ref_state + self.ansatz.circuit\n        if self.backend_options.get(\"noise_model\") is None:\n            _, sv = self.backend.simulate(prep_circuit, return_statevector=True)\n\n        # Loop over each element of Hamiltonian (non-zero value)\n        for key in self.molecule.fermionic_hamiltonian.terms:\n            # Ignore constant / empty term\n            if not key:\n                continue\n\n            # Assign indices depending on one- or two-body term\n            length = len(key)\n            if (length == 2):",
+  "            qb_freq_dict, qb_expect_dict = getattr(self, \"rdm_freq_dict\", dict()), dict()\n\n        # Build state preparation circuit. If noiseless, simulate and save the statevector\n        prep_circuit = ref_state + self.ansatz.circuit\n        if self.backend_options.get(\"noise_model\") is None:\n            _, sv = self.backend.simulate(prep_circuit, return_statevector=True)\n\n        # Loop over each element of Hamiltonian (non-zero value)\n        for key in self.molecule.fermionic_hamiltonian.terms:\n            # Ignore constant / empty term\n            if not key:\n                continue\n\n            # Assign indices depending on one- or two-body term\n            length = len(key)\n            if (length == 2):")
+m("c13-vqe-rdm-keeps-old-parameters", "C13", VQE, "        self.ansatz.update_var_params(var_params)\n\n        # Initialize the RDM arrays\n        n_mol_orbitals = self.molecule.n_active_mos", "        # Initialize the RDM arrays\n        n_mol_orbitals = self.molecule.n_active_mos")
+m("c13-energy-from-rdms-two-body-factor", "C13", MOLF, "            e = core_constant + np.sum(one_electron_integrals * one_rdm) + 0.5*np.sum(two_electron_integrals * two_rdm)", "            e = core_constant + np.sum(one_electron_integrals * one_rdm) + 0.5*np.sum(two_electron_integrals * two_rdm.transpose(0, 2, 1, 3))")
+m("c13-fci-rdm-cached-by-reference", "C13", FCI, "        if self.cas:\n            one_rdm, two_rdm = self.cisolver.make_rdm12(self.ci, self.norb, (self.n_alpha, self.n_beta))\n        else:\n            if self.spin == 0:",
+  "        if getattr(self, \"_rdm_cache\", None) is not None and self._rdm_cache[0] is self.ci:\n            return self._rdm_cache[1], self._rdm_cache[2]\n        if self.cas:\n            one_rdm, two_rdm = self.cisolver.make_rdm12(self.ci, self.norb, (self.n_alpha, self.n_beta))\n            self._rdm_cache = (self.ci, one_rdm, two_rdm)\n        else:\n            if self.spin == 0:")
+m("c13-fci-open-shell-swaps-spin-counts", "C13", FCI, "                one_rdm, two_rdm = self.cisolver.make_rdm12(self.ci, self.norb, (self.n_alpha, self.n_beta))\n\n        return one_rdm, two_rdm", "                one_rdm, two_rdm = self.cisolver.make_rdm12(self.ci, self.norb, (self.n_beta, self.n_alpha))\n\n        return one_rdm, two_rdm")
+m("c13-ccsd-2rdm-without-1rdm-part", "C13", CCSD, "            two_rdm = _make_rdm2(self.cc_fragment, d1, d2, with_dm1=True, with_frozen=False)", "            two_rdm = _make_rdm2(self.cc_fragment, d1, d2, with_dm1=False, with_frozen=False)")
+m("c13-resample-draws-from-uniform", "C13", VQE, "                            resampled_freq_dict = get_resampled_frequencies(qb_freq_dict[qb_term], self.backend.n_shots)", "                            resampled_freq_dict = get_resampled_frequencies({kk: 1 / len(qb_freq_dict[qb_term]) for kk in qb_freq_dict[qb_term]}, self.backend.n_shots)")
+
 EXPECTED_MISS = {"c07-puccd-mapping-reversed": "build_circuit delegates to update_var_params: single code path, invisible to incremental-vs-fresh"}
 MUTANTS = M
